@@ -286,6 +286,8 @@ def _wiring_table(ck, repo):
         ck.ob(f"{cls}.bake: the directives are computed from self.directives", len(src) == 1 and unparse(src[0].value) == "compute_directive_nodes(schema, self.directives)", b,
               src[0] if src else b.node, construct=f"wiring:{cls}:source")
     _bake_cascade(ck, repo)
+    from .c12 import bake_pipeline
+    bake_pipeline(ck, repo)
     # output side: hook callable lives in the output_coercer (and only there) for leaf/composite types
     for rel, cls in HOOK_SITES[:6]:
         if cls == "GraphQLEnumValue":
